@@ -170,6 +170,18 @@ Definition auto_arg (st : state) (p : pty) (blk : option block) : state * barg :
   | _ => (st, zero_of p)
   end.
 
+(* an explicit nil for a HelperContext parameter means the usual helper context, as when the
+   argument is omitted (non-variadic calls) *)
+Fixpoint fix_nil_hctx (cur : nat) (blk : option block) (ps : list pty) (bs : list barg) : list barg :=
+  match ps, bs with
+  | p :: ps', b :: bs' =>
+      (match p, b with
+       | PHCtx, BV (VOther 2) | PHCtxI, BV VNil => BHelp (HC cur blk)
+       | _, _ => b
+       end) :: fix_nil_hctx cur blk ps' bs'
+  | _, _ => bs
+  end.
+
 Definition ext_of (name : bytes) : bytes :=      (* filepath.Ext *)
   (fix go (s : bytes) (acc : option bytes) : bytes :=
      match s with
@@ -792,7 +804,8 @@ Definition bind_args_step (self : evals) (st : state) (sg : gosig) (args : list 
       if negb (sg_variadic sg) then
         if Nat.ltb nin (length args) then fail st
         else
-          let+ (bs, st1) := r_bind_fixed self st (sg_params sg) args in
+          let+ (bs0, st1) := r_bind_fixed self st (sg_params sg) args in
+          let bs := fix_nil_hctx (scur st1) blk (sg_params sg) bs0 in
           let diff := (nin - length bs)%nat in
           let '(st2, bs2) :=
             match diff with
